@@ -12,6 +12,8 @@ mod pure;
 #[cfg(feature = "std")]
 mod pure2;
 #[cfg(feature = "with_serde")]
+mod natural;
+#[cfg(feature = "with_serde")]
 mod serde_probe;
 #[cfg(feature = "std")]
 mod sut;
